@@ -83,12 +83,13 @@ Proof. exact pending_origin. Qed.
 Print Assumptions tax_record_immutable.
 
 (** 3. Over every history (sends at arbitrary heights, interleaved with cancels, batches, executions,
-    failed operations and governance changes of anything but this token's limit): the accepted
+    failed operations and governance changes of anything but this token's limit, and no restart of
+    the chain from an exported genesis — see 7.): the accepted
     transfers of the senders the limiter looks at, grouped into windows by the restart rule
     (a transfer [>= L] blocks after the window's first transfer opens the next window), never
     total more than the limit in any window. *)
 Theorem window_total_le_limit : forall tok lc ops s,
-  limits s tok = Some lc -> lc_period lc <> PNone -> usages s tok = None -> no_setlimit tok ops ->
+  limits s tok = Some lc -> lc_period lc <> PNone -> usages s tok = None -> no_setlimit tok ops -> no_genesis ops ->
   Forall (fun w => w <= lc_limit lc) (window_sums (block_limit (lc_period lc)) (accepted tok s ops)).
 Proof. exact window_total_le_limit_fresh. Qed.
 Print Assumptions window_total_le_limit.
@@ -96,7 +97,7 @@ Print Assumptions window_total_le_limit.
 (** The same from any state with a running tally [u] within the limit (e.g. after a governance
     change), and: the stored tally is exactly the total of the current window. *)
 Theorem window_total_le_limit_running : forall tok lc, lc_period lc <> PNone ->
-  forall ops s u, limits s tok = Some lc -> no_setlimit tok ops ->
+  forall ops s u, limits s tok = Some lc -> no_setlimit tok ops -> no_genesis ops ->
     usages s tok = Some u -> u_total u <= lc_limit lc ->
     Forall (fun w => w <= lc_limit lc) (wsums (block_limit (lc_period lc)) (u_start u) (u_total u) (accepted tok s ops)) /\
     exists u', usages (run s ops) tok = Some u' /\
@@ -169,6 +170,35 @@ Theorem configured_tax_is_charged : forall tok num den ex s s1 h snd a mal s2,
   (forall t', t' <> tok -> taxes s1 t' = taxes s t').
 Proof. exact settax_then_send. Qed.
 Print Assumptions configured_tax_is_charged.
+
+(** 7. Genesis export / import (ExportGenesis, then InitGenesis on an empty store = the operation
+    [Genesis]).  The tax and limit records, the pending transfers with their recorded tax, the id
+    counters and the ledger are carried; the usage tallies are NOT part of the exported genesis
+    (genesis.go, read from the source: Gen/C15.v [genesis_carries_usage] = false).  So: after the
+    restart every window starts afresh and from there on the limit holds again; but across the
+    restart the window clause is false — hence the hypothesis [no_genesis] of 3.  The witness is
+    replayed on the real keeper by the harness (known finding C15:usage-tally-lost-in-genesis-export). *)
+Theorem genesis_carries : forall s,
+  deliver Genesis s = (step s Genesis, Ok) /\
+  taxes (step s Genesis) = taxes s /\ limits (step s Genesis) = limits s /\
+  pool (step s Genesis) = pool s /\ batches (step s Genesis) = batches s /\
+  last_id (step s Genesis) = last_id s /\ last_batch (step s Genesis) = last_batch s /\
+  bal (step s Genesis) = bal s /\ escrow (step s Genesis) = escrow s /\ burned (step s Genesis) = burned s /\
+  (forall tok, usages (step s Genesis) tok = None).
+Proof. exact genesis_step. Qed.
+Print Assumptions genesis_carries.
+
+Theorem window_total_le_limit_after_genesis : forall tok lc ops s,
+  limits s tok = Some lc -> lc_period lc <> PNone -> no_setlimit tok ops -> no_genesis ops ->
+  Forall (fun w => w <= lc_limit lc) (window_sums (block_limit (lc_period lc)) (accepted tok (step s Genesis) ops)).
+Proof. exact windows_after_genesis. Qed.
+Print Assumptions window_total_le_limit_after_genesis.
+
+Theorem window_total_across_genesis_refuted :
+  exists tok lc ops s, limits s tok = Some lc /\ lc_period lc <> PNone /\ usages s tok = None /\ no_setlimit tok ops /\
+    ~ Forall (fun w => w <= lc_limit lc) (window_sums (block_limit (lc_period lc)) (accepted tok s ops)).
+Proof. exact genesis_window_refuted. Qed.
+Print Assumptions window_total_across_genesis_refuted.
 
 (* --- source translation tie (GenFn) --- *)
 (* The Go function bodies named below are re-translated from the source on every check
